@@ -17,4 +17,4 @@ class Check(PropertyCheck):
     assumptions = ["E-actors; denoms used are prefix-free (no KF-key-concat collision in these worlds)"]
 
     def families(self, rng, tier):
-        return [("world.registry", fam_world.registry_histories(rng, tier, big=True))]
+        return [("world.registry", fam_world.registry_histories(rng.sub("registry_histories"), tier, big=True))]
